@@ -31,18 +31,18 @@ PROPS = {
     "C04": dict(streams=[diff("agg", 3000, 40000), diff("kagg", 300, 5000), diff("aggparam", 400, 6000), orc("kernel", "kernel", 2000, 40000)], rule=RULE, trusted_base=COMMON_TB),
     "C05": dict(streams=[diff("binary", 3000, 40000), orc("kernel", "kernel", 2000, 40000)], rule=RULE, trusted_base=COMMON_TB),
     "C06": dict(streams=[diff("func", 3000, 40000), diff("late", 300, 5000), diff("twins", 400, 6000), diff("hist", 400, 6000)], rule=RULE, trusted_base=COMMON_TB),
-    "C07": dict(streams=[orc("rangeinst", "mixed", 400, 6000), orc("rangeinst", "twins", 400, 6000), orc("rangeinst", "late", 250, 4000), orc("rangeinst", "rangefn", 200, 3000), orc("rangeinst", "func", 300, 4000)], rule=RULE, trusted_base=COMMON_TB),
+    "C07": dict(streams=[orc("rangeinst", "mixed", 400, 6000), orc("rangeinst", "twins", 400, 6000), orc("rangeinst", "late", 250, 4000), orc("rangeinst", "rangefn", 200, 3000), orc("rangeinst", "func", 300, 4000), orc("kernel", "kpull", 800, 10000)], rule=RULE + "; kpull = trees of the real operators over scripted children, and Options.NumSteps() on windows with sub-millisecond parts, against the batch-level model (Streams.lean)", trusted_base=COMMON_TB),
     "C08": dict(streams=[orc("fallback", "fallback", 0, 0)], rule="exhaustive enumeration: every function of parser.Functions (full and minimal arity), every aggregation and binary/set operator and modifier, subqueries, string literals, range vectors, each in every syntactic position x instant/range x fallback on/off", trusted_base=COMMON_TB, exhaustive=True),
     "C09": dict(streams=[orc("opt", "optx", 1500, 30000), orc("opt", "mixed", 300, 6000), orc("opt", "twins", 300, 4000)], rule=RULE + "; optx = selectors of <=2 matchers over the 2-key x 4-type x 3-value alphabet (incl. repeated keys) in 18 positional templates over a dataset with every label-presence combination", trusted_base=COMMON_TB),
-    "C10": dict(streams=[orc("dist", "dist", 600, 12000), orc("dist", "dnest", 150, 3000), orc("dist", "dfunc", 900, 3600), orc("dist", "aggparam", 600, 6000), orc("distplan", "dfunc", 1800, 3600), orc("distplan", "dist", 400, 8000), orc("distplan", "dnest", 150, 3000), orc("distplan", "mixed", 400, 8000), orc("distplan", "func", 200, 4000)], rule=RULE + "; random assignment of the series to 1..4 remote engines incl. empty partitions; dnest = the same aggregation nested with groups split across engines; distplan = the real DistributedExecutionOptimizer's plan against the Lean model of its traversal, by plan shape; dfunc = every function of the parser's table with arguments of the declared types in twelve positions", trusted_base=COMMON_TB),
+    "C10": dict(streams=[orc("dist", "dist", 600, 12000), orc("dist", "dnest", 150, 3000), orc("dist", "dfunc", 900, 3600), orc("dist", "aggparam", 600, 6000), orc("distplan", "dfunc", 1800, 3600), orc("distplan", "dist", 400, 8000), orc("distplan", "dnest", 150, 3000), orc("distplan", "mixed", 400, 8000), orc("distplan", "func", 200, 4000), orc("kernel", "krem", 1500, 20000, fields=["other", "crash", "eng_vs_model", "model_vs_spec"])], rule=RULE + "; krem = the real remote.NewExecution over a stub query returning a prescribed matrix or vector (which scribbles over its result when closed) against the Lean model of the transport and its specification; random assignment of the series to 1..4 remote engines incl. empty partitions; dnest = the same aggregation nested with groups split across engines; distplan = the real DistributedExecutionOptimizer's plan against the Lean model of its traversal, by plan shape; dfunc = every function of the parser's table with arguments of the declared types in twelve positions", trusted_base=COMMON_TB),
     "C11": dict(streams=[orc("procs", "mixed", 150, 2500), orc("procs", "selector", 100, 1500), orc("procs", "twins", 250, 3000), orc("procs", "agg", 300, 4000), orc("procs", "kagg", 200, 3000), orc("kernel", "kco", 400, 6000)], rule=RULE + "; each case under GOMAXPROCS 1,2,3,4,6,8,12,16, permuted storage order, added unrelated series, yields in storage callbacks", trusted_base=COMMON_TB),
     "C12": dict(streams=[orc("concurrent", "concurrent", 60, 600, workers=4), orc("concurrent", "twins", 30, 300, workers=4)], race=True, rule=RULE + "; up to 32 concurrent executions of 2-6 queries on one engine and one storage under the race detector", trusted_base=COMMON_TB),
-    "C13": dict(streams=[orc("panic", "mixed", 40, 500), orc("panic", "extreme", 60, 800), orc("lifecycle", "mixed", 150, 2000), diff("extreme", 400, 6000), diff("aggparam", 400, 6000)], rule=RULE + "; a panic (runtime error / string value) injected at storage events, each attempt in a child process", trusted_base=COMMON_TB),
+    "C13": dict(streams=[orc("panic", "mixed", 40, 500), orc("panic", "extreme", 60, 800), orc("lifecycle", "mixed", 150, 2000), diff("extreme", 400, 6000), diff("aggparam", 400, 6000), orc("kernel", "kpull", 800, 10000)], rule=RULE + "; kpull = trees of the real operators over scripted children against the batch-level model whose index-safety theorem C13 states; a panic (runtime error / string value) injected at storage events, each attempt in a child process", trusted_base=COMMON_TB),
     "C14": dict(streams=[orc("cancel", "mixed", 100, 1500), orc("cancel", "binary", 40, 600)], rule=RULE + "; cancellation of the context, Cancel() from another goroutine and a blocking storage at storage events", trusted_base=COMMON_TB),
     "C15": dict(streams=[orc("faults", "mixed", 200, 3000)], rule=RULE + "; an error injected at error-capable storage events (Querier, Select, SeriesSet.Next/Err, Iterator Seek/Next/Err)", trusted_base=COMMON_TB),
     "C16": dict(streams=[orc("hints", "mixed", 500, 8000), orc("hints", "twins", 400, 6000), orc("hints", "hist", 300, 4000), orc("hints", "func", 300, 4000)], rule=RULE, trusted_base=COMMON_TB),
     "C17": dict(streams=[orc("lifecycle", "mixed", 300, 5000), orc("kernel", "kslice", 500, 8000), orc("lifecycle", "incl", 150, 2500), orc("lifecycle", "binary", 200, 4000), orc("lifecycle", "rangefn", 150, 2000), orc("lifecycle", "func", 200, 3000), orc("lifecycle", "hist", 150, 2000), orc("faults", "mixed", 100, 1500), orc("cancel", "mixed", 40, 600), orc("panic", "mixed", 25, 300)], rule=RULE, trusted_base=COMMON_TB),
-    "C18": dict(streams=[diff("mixed", 1500, 30000), diff("extreme", 300, 5000), diff("func", 800, 10000), orc("procs", "mixed", 60, 600), orc("lifecycle", "hist", 150, 2000), diff("hist", 300, 4000), orc("kernel", "kco", 300, 4000), diff("late", 200, 3000), orc("dist", "dist", 200, 3000, fields=["other", "crash", "eng_vs_model", "contract"])], rule=RULE + "; the verif-tag wrapper checks the contract at every Series/Next of every operator", trusted_base=COMMON_TB),
+    "C18": dict(streams=[diff("mixed", 1500, 30000), diff("extreme", 300, 5000), diff("func", 800, 10000), orc("procs", "mixed", 60, 600), orc("lifecycle", "hist", 150, 2000), diff("hist", 300, 4000), orc("kernel", "kco", 300, 4000), diff("late", 200, 3000), orc("dist", "dist", 200, 3000, fields=["other", "crash", "eng_vs_model", "contract"]), orc("kernel", "kpull", 2000, 30000)], rule=RULE + "; kpull = trees of the real operators over scripted children against the batch-level model (Streams.lean), every batch of every call and the number of batches each child was asked for; the verif-tag wrapper checks the contract at every Series/Next of every operator", trusted_base=COMMON_TB),
     "C19": dict(streams=[diff("mixed", 1500, 30000), diff("extreme", 600, 10000), diff("binary", 600, 10000), diff("func", 1500, 20000), diff("hist", 400, 6000)], rule=RULE, trusted_base=COMMON_TB),
     "C20": dict(streams=[orc("sequence", "sequence", 250, 3000), orc("lifecycle", "hist", 150, 2000)], rule=RULE + "; sequences of 2-6 queries run twice on one engine interleaved with appends, every kept result re-checked after every later operation", trusted_base=COMMON_TB),
 }
